@@ -291,6 +291,7 @@ type c10Env struct {
 	dRel   chan struct{}
 	rRel   chan struct{}
 	wRel   []chan struct{}
+	lRel   []chan struct{}
 }
 
 func (e *c10Env) onTxEnd(rct txresult.Receipt) error {
@@ -495,6 +496,12 @@ func (w *c10WVS) Commit() {
 	w.WorldVirtualState.Commit()
 	if w.tx.env.gated {
 		w.tx.env.ev <- c10Ev{kind: "commit", tx: w.tx.idx}
+		// the worker stays here (its virtual state is committed, it has not yet done anything
+		// that follows Commit in the worker: ec.Done(), ...) until the controller lets it leave.
+		// For the last worker the controller first lets the dispatcher run through its final
+		// Realize and ec.Error(): whatever the worker has to tell the dispatcher about its
+		// transaction must have been told before Commit.
+		<-w.tx.env.lRel[w.tx.idx]
 	}
 }
 
@@ -659,13 +666,15 @@ func (c *c10Ctl) run(sched []int, start func()) c10Ev {
 		delete(blocked, a)
 		done++
 		tokens++
-		switch disp {
-		case dReady:
+		if disp == dRealize && done == launched {
+			// schedule class "the dispatcher finishes before the last worker leaves Commit"
+			realize()
+			e.lRel[a] <- struct{}{}
+			continue
+		}
+		e.lRel[a] <- struct{}{}
+		if disp == dReady {
 			launch(dtx)
-		case dRealize:
-			if done == launched {
-				realize()
-			}
 		}
 	}
 	execsAtFin := 0
@@ -685,6 +694,7 @@ func (c *c10Ctl) run(sched []int, start func()) c10Ev {
 					c.desync = "drain-lost"
 					delete(blocked, j)
 				} else if ev.kind == "commit" {
+					e.lRel[j] <- struct{}{}
 					delete(blocked, j)
 				}
 				break
@@ -729,6 +739,7 @@ func c10NewEnv(level int, specs []string, free bool) (*c10Env, module.Transition
 		t.atts = s
 		e.txs = append(e.txs, t)
 		e.wRel = append(e.wRel, make(chan struct{}))
+		e.lRel = append(e.lRel, make(chan struct{}, 1))
 		e.succ[i] = -1
 		txs[i] = t
 	}
